@@ -636,7 +636,9 @@ def _isotope_substitution(compound, source, target, portion=1):
     if source in atoms:
         mass = compound.mass
         mass_reduction = atoms[source]*portion*(source.mass - target.mass)
-        density = compound.density * (mass - mass_reduction)/mass
+        density = compound.density
+        if density is not None:
+            density = density * (mass - mass_reduction)/mass
         atoms[target] = atoms.get(target, 0) + atoms[source]*portion
         if portion == 1:
             del atoms[source]
@@ -644,7 +646,11 @@ def _isotope_substitution(compound, source, target, portion=1):
             atoms[source] *= 1-portion
     else:
         density = compound.density
-    return formula(atoms, density=density)
+    result = formula(atoms, density=density)
+    if density is None:
+        # unknown stays unknown, even for a single-atom result
+        result.density = None
+    return result
 
 
 LENGTH_UNITS = {'nm': 1e-9, 'um': 1e-6, 'mm': 1e-3, 'cm': 1e-2}
